@@ -76,6 +76,9 @@ def run_C20(ctx, rep):
 
 
 def run_C10(ctx, rep):
+    uf_rules.check_U1(ctx, rep, 'union_find::EqRel::<T>::', 'elem_ids', ['get_dominant_id*'])
+    uf_rules.check_U3(ctx, rep, ['union_find::EqRel::<T>::'])
+    rep.floor('U1', 2); rep.floor('U3', 1)
     byods_rules2.check_L38(ctx, rep, ['eqrel_ternary', 'eqrel_ind', 'ceqrel_ind'])
     lib_rules.check_L13(ctx, rep)       # is_empty of every read view is exact (a rule is skipped when a body relation reports empty)
     byods_rules.check_L5(ctx, rep, 'eqrel_ternary')
@@ -133,6 +136,14 @@ def run_C11(ctx, rep):
 
 
 def run_C12(ctx, rep):
+    _TR = 'trrel_union_find::TrRelUnionFind::<T>::'     # the structure behind the provider: the C18 clauses are necessary here too
+    uf_rules.check_U1(ctx, rep, _TR, 'elem_ids', ['get_dominant_id*'])
+    uf_rules.check_U2(ctx, rep, _TR, 'set_connections', 'reverse_set_connections',
+                      [('set_of_by_set_id', 'rev_set_of_by_set_id'), ('set_of', 'rev_set_of'), ('get_set_connections', 'get_reverse_set_connections')])
+    uf_rules.check_U3(ctx, rep, [_TR])
+    uf_rules.check_U6(ctx, rep, _TR, 'set_connections', 'reverse_set_connections')
+    uf_rules.check_U7(ctx, rep, 'trrel_union_find')
+    rep.floor('U1', 3); rep.floor('U2', 3); rep.floor('U3', 1); rep.floor('U6', 2); rep.floor('U7', 1)
     byods_rules2.check_L37(ctx, rep, ['adaptor::bin_rel_to_ternary', 'trrel_union_find_binary_ind'])
     byods_rules2.check_L38(ctx, rep, ['adaptor::bin_rel_to_ternary', 'adaptor::bin_rel', 'trrel_union_find_binary_ind'])
     lib_rules.check_L13(ctx, rep)       # is_empty of every read view is exact (a rule is skipped when a body relation reports empty)
@@ -561,10 +572,10 @@ _ADDENDA = {
            'closure, match arm, guard), aggregations, empty macro bodies, unary arguments; M3, M4 (incl. the Agg arms), M5 on the macro crate.',
     'C09': ' Also: include next to re-declarations / with aggregation / with a lattice / with inner attributes, G16, the update_indices rules (G3.ui, G4.ui), R1 on '
            'ascent_run! programs with captured locals spelled like generated names, initialised relations read only in their own recursive stratum.',
-    'C10': ' Also: L38 (no unordered-pairs adaptor in a two-column index enumeration), L15 path-enumerating, L13, L28, L33 (combine keeps one-element classes), L34 (no element-level exclusion in the delta views), L22 ordering / '
+    'C10': ' Also (from C18, on the EqRel behind the provider): U1 stored class ids go through the find function before they are used or handed out, U3 a union moves the members and writes the forwarding entry in that direction. Also: L38 (no unordered-pairs adaptor in a two-column index enumeration), L15 path-enumerating, L13, L28, L33 (combine keeps one-element classes), L34 (no element-level exclusion in the delta views), L22 ordering / '
            'hinge / unconditional completion.',
     'C11': ' Also: L36 (reverse-map flags of the provider macro), L37 (column order), L38, L13, L14 guard rule (a step may only stand under an emptiness test of its own operands), L22 ordering / hinge / unconditional completion, L29.',
-    'C12': ' Also: L36 (reverse-map flags of the provider macro), L37 (column order), L38, L13, L28, L29, L30 (scan source of the union-find total), L32 (class ids are taken after the last collapsing call), L22 as for C10.',
+    'C12': ' Also (from C18, on the TrRelUnionFind behind the provider): U1 id resolution, U2 direction mirror of the query siblings, U3 collapse completeness, U6 edges mirrored into the reverse table, U7 set subtraction branches agree. Also: L36 (reverse-map flags of the provider macro), L37 (column order), L38, L13, L28, L29, L30 (scan source of the union-find total), L32 (class ids are taken after the last collapsing call), L22 as for C10.',
     'C13': ' Also: the library protocol rules L4, L6, L7, L13; G17 (rows of a lattice relation with equal keys are joined when the indices are rebuilt - open '
            'finding, see known_findings.txt).',
     'C14': ' Also: the library protocol rules L4, L6, L7, L13.',
